@@ -12,6 +12,7 @@ func init() {
 	}})
 	register(&PropertyRule{ID: "C02", Explain: "structural necessary conditions of C02 (election safety): see DESIGN.md §5 C02", Run: func(c *Check) {
 		gVote(c)
+		c05MustSync(c) // what is promised must be flagged for a synchronous write
 		gElect(c)
 		gQuorumJoint(c)
 		c10Hup(c)
@@ -42,6 +43,7 @@ func init() {
 	}})
 	register(&PropertyRule{ID: "C07", Explain: "structural necessary conditions of C07 (HardState monotone): see DESIGN.md §5 C07", Run: func(c *Check) {
 		gCommitMono(c)
+		c05MustSync(c) // what is promised must be flagged for a synchronous write
 		gVote(c)
 		c07HardState(c)
 	}})
@@ -60,6 +62,7 @@ func init() {
 	}})
 	register(&PropertyRule{ID: "C01", Explain: "node-local structural necessary conditions of C01 (state-machine safety): see DESIGN.md §5 C01", Run: func(c *Check) {
 		gTrunc(c)
+		c05MustSync(c) // what is promised must be flagged for a synchronous write
 		gCommitMono(c)
 		gApply(c)
 		sliceRules(c)
